@@ -185,6 +185,9 @@ func c05(p *model.Prog, r *report.Result) {
 			r.Check(!wraps, "C05.LOOP", fkey(fn, "ts-loop", "wrap-free-exit"), p.InstrPos(exitIf), "the loop's exit test is computed wider than the 32-bit timestamp", "the loop's exit test adds to a 32-bit timestamp in 32 bits: for a timestamp within one step of 2^32 the sum wraps, the exit condition stays false and the loop emits messages until the process is killed")
 		}
 	}
+	c05Count(p, r)
+	c05Gate(p, r)
+	c05Split(p, r)
 	r.Count("timestamp_driven_loops", nLoops)
 	if nLoops < 1 {
 		r.Bad("C05.LOOP", "floor", "", "no timestamp-driven loop found (DummyAudioFilter.handleDummyStage expected)")
